@@ -599,7 +599,7 @@ func liveChain(kind string, n int, two bool) string {
 	go func() { eb.Publish(bus, mkRT1(1)); close(done) }()
 	select {
 	case <-done:
-	case <-time.After(4 * time.Second):
+	case <-time.After(12 * time.Second):
 		return fmt.Sprintf("!livechain a handler of a resumable subscription that publishes blocks the publish for ever (after %s / %s)", showNatList(gotA), showNatList(gotB))
 	}
 	var wantA, wantB []int
